@@ -830,8 +830,134 @@ def rule_stream_frame_data(ctx):
     ctx.require(n >= 20, f"only {n} cells")
 
 
+def rule_stream_sequences(ctx):
+    """Streaming / frame send API as a whole: histories beginMessage -> (sendMessageFrame | beginMessageFrame + sendMessageFrameData)* -> endMessage,
+    evaluated (sa.core.tiny) on one shared protocol state with the real method bodies; what reaches the wire (frame headers written by
+    beginMessageFrame, frames handed to sendFrame) must be a well-formed RFC 6455 message: the first frame carries the message opcode (and RSV1
+    iff the message is compressed), every further frame is a continuation without RSV bits, exactly the last frame has FIN -- also for the
+    message without any frame in between (the empty message)."""
+    from ..core.tiny import Tiny, Sym, Buf
+    from .common import inline_private
+    ctx.rule("C01.11-streaming-api-frame-sequence")
+    cls_ = ctx.program.cls(WSP)
+    names = ("beginMessage", "beginMessageFrame", "sendMessageFrameData", "sendMessageFrame", "endMessage")
+    fns = {}
+    for n_ in names:
+        fns[n_] = ctx.program.func(f"{WSP}.{n_}")
+        ctx.analysed(fns[n_])
+    consts = {}
+    for s_ in cls_.node.body:
+        if isinstance(s_, ast.Assign) and len(s_.targets) == 1 and isinstance(s_.targets[0], ast.Name) and isinstance(s_.value, ast.Constant) and isinstance(s_.value.value, int):
+            consts[s_.targets[0].id] = s_.value.value
+    ctx.require("STATE_OPEN" in consts and "SEND_STATE_GROUND" in consts and "MESSAGE_TYPE_BINARY" in consts, "protocol constants not found")
+    inl = inline_private(ctx, cls_, exclude=("sendData", "sendFrame") + names)
+    histories = [("no frame at all (empty message)", []),
+                 ("one frame of 5 octets", [("sendMessageFrame", 5)]),
+                 ("an empty frame, then 3 octets", [("sendMessageFrame", 0), ("sendMessageFrame", 3)]),
+                 ("a frame announced with beginMessageFrame(4) and filled by sendMessageFrameData", [("beginMessageFrame", 4), ("sendMessageFrameData", 4)])]
+    probs = []
+    n = 0
+    try:
+        for what, steps in histories:
+            for binary in (False, True):
+                for compressed in (False, True):
+                    wire = []   # ("frame", opcode, fin, rsv1) | ("data", n)
+                    ptr = [0]
+
+                    def mk_masker():
+                        ptr[0] = 0
+
+                        def process(x):
+                            ptr[0] += len(x)
+                            return x
+                        return Sym("masker", methods={"pointer": lambda: ptr[0], "process": process})
+
+                    def oracle(fname, args, kwargs=None):
+                        kw = kwargs or {}
+                        if fname == "self.sendFrame":
+                            b_ = dict(zip(("opcode", "payload", "fin", "rsv"), args))
+                            b_.update(kw)
+                            wire.append(("frame", b_.get("opcode"), bool(b_.get("fin", True)), b_.get("rsv", 0)))
+                            return None
+                        if fname == "self.sendData":
+                            d = args[0] if args else None
+                            if isinstance(d, tuple) and len(d) == 2 and d[0] == "joined" and d[1] and all(isinstance(x_, bytes) or (isinstance(x_, Buf) and len(x_) == 0) for x_ in d[1]):
+                                d = b"".join(x_ for x_ in d[1] if isinstance(x_, bytes))   # header assembled from octets and empty parts
+                            if isinstance(d, bytes) and len(d) >= 2:
+                                wire.append(("frame", d[0] & 0x0F, bool(d[0] & 0x80), (d[0] >> 4) & 7))
+                            elif isinstance(d, (Buf, bytes)):
+                                wire.append(("data", len(d)))
+                            else:
+                                wire.append(("?", d))
+                            return None
+                        if fname in ("XorMaskerNull", "create_xor_masker"):
+                            return mk_masker()
+                        return Sym(f"<{fname}>")
+                    comp = Sym("compressor", methods={"start_compress_message": lambda: None, "compress_message_data": lambda x: x,
+                                                      "end_compress_message": lambda: Buf(100, 101)}) if compressed else None
+                    env = {"self": Sym("protocol"), "self.state": consts["STATE_OPEN"], "self.send_state": consts["SEND_STATE_GROUND"], "self.send_compressed": False,
+                           "self._perMessageCompress": comp, "self.factory": Sym("factory", isServer=True), "self.maskServerFrames": False, "self.maskClientFrames": True,
+                           "self.applyMask": True, "self.log": Sym("log"),
+                           "self.trafficStats": Sym("stats", outgoingOctetsAppLevel=0, outgoingOctetsWebSocketLevel=0, outgoingWebSocketFrames=0, outgoingWebSocketMessages=0),
+                           "WebSocketProtocol": Sym("class WebSocketProtocol", **consts)}
+                    env.update({f"WebSocketProtocol.{k_}": v_ for k_, v_ in consts.items()})
+                    calls = [("beginMessage", {"isBinary": binary})] + [(m_, a_) for m_, a_ in steps] + [("endMessage", {})]
+                    tag = f"{'binary' if binary else 'text'} message{', compressed' if compressed else ''}: beginMessage, {what}, endMessage"
+                    failed = None
+                    off = 0
+                    for m_, a_ in calls:
+                        fn = fns[m_]
+                        prm = fn.params()[1:]
+                        d_ = fn.node.args.defaults
+                        bind = {p_: (ast.literal_eval(dv) if isinstance(dv, ast.Constant) else None) for p_, dv in zip(prm[len(prm) - len(d_):], d_)}
+                        if isinstance(a_, dict):
+                            bind.update(a_)
+                        elif m_ == "beginMessageFrame":
+                            bind[prm[0]] = a_
+                        else:
+                            bind[prm[0]] = Buf(off, off + a_)
+                            off += a_
+                        e2 = dict(env)
+                        e2.update(bind)
+                        body = [x for x in fn.node.body if not (isinstance(x, ast.Expr) and isinstance(x.value, ast.Constant))]
+                        t = Tiny(e2, default_call=oracle, inline_self=inl, opaque_globals=True, model_strings=True, model_types=True)
+                        r = t.run(body)
+                        env = {k_: v_ for k_, v_ in t.env.items() if k_ not in bind}
+                        if r[0] == "raise":
+                            failed = f"{m_}() raises {str(r[1])[:50]}"
+                            break
+                    n += 1
+                    if failed:
+                        probs.append(f"{tag}: {failed}")
+                        continue
+                    frames = [w for w in wire if w[0] == "frame"]
+                    if any(w[0] == "?" for w in wire):
+                        probs.append(f"{tag}: writes something the model cannot read as header or payload: {[w for w in wire if w[0] == '?'][:1]}")
+                        continue
+                    want_op = consts["MESSAGE_TYPE_BINARY"] if binary else consts["MESSAGE_TYPE_TEXT"]
+                    if not frames:
+                        probs.append(f"{tag}: no frame written")
+                    elif frames[0][1] != want_op:
+                        probs.append(f"{tag}: first frame on the wire has opcode {frames[0][1]}, expected {want_op} (a continuation frame outside a message is a protocol violation at the peer)")
+                    elif bool(frames[0][3] & 4) != compressed or frames[0][3] & 3:
+                        probs.append(f"{tag}: first frame has RSV {frames[0][3]}, expected {'4 (RSV1)' if compressed else '0'}")
+                    elif any(f_[1] != 0 or f_[3] for f_ in frames[1:]):
+                        probs.append(f"{tag}: a later frame is not a plain continuation: {frames[1:]}")
+                    elif [f_[2] for f_ in frames] != [False] * (len(frames) - 1) + [True]:
+                        probs.append(f"{tag}: FIN flags {[f_[2] for f_ in frames]}, expected only the last frame final")
+                    st = env.get("self.send_state")
+                    if st != consts["SEND_STATE_GROUND"]:
+                        probs.append(f"{tag}: send state afterwards {st}, expected ground ({consts['SEND_STATE_GROUND']})")
+    except AnalysisError as e:
+        raise AnalysisError(f"[C01.11-streaming-api-frame-sequence] streaming send API outside the modelled subset: {e}")
+    ctx.ob(f"beginMessage .. endMessage: the frames written form one well-formed message (opcode / RSV1 on the first frame only, FIN on the last only), "
+           f"also with no frame in between [{n} histories]", not probs, "; ".join(probs[:3]), fns["endMessage"].loc())
+    ctx.require(n >= 16, f"only {n} histories")
+
+
 def run(ctx):
     rule_stream_frame_data(ctx)
+    rule_stream_sequences(ctx)
     rule_length_coding(ctx)
     rule_header_bits(ctx)
     rule_fragment_loops(ctx)
